@@ -11,7 +11,7 @@ import (
 )
 
 type C17Dir struct {
-	Kind    string   `json:"kind"` // removeById removeByTag removeByMsg updTargetById updTargetByTag updActionById ctl
+	Kind    string   `json:"kind"`          // removeById removeByTag removeByMsg updTargetById updTargetByTag updActionById ctl
 	IDs     []string `json:"ids,omitempty"` // "803" or "802-804"
 	Tag     string   `json:"tag,omitempty"`
 	Msg     string   `json:"msg,omitempty"`
@@ -87,6 +87,10 @@ func genC17(t *rapid.T) *C17Case {
 			genC17Rule(t, l)
 			r.Chain = append(r.Chain, l)
 		}
+		if r.Disr == "pass" && rapid.IntRange(0, 4).Draw(t, "skip") == 0 {
+			// a skip window over rules that the directive / ctl may remove: a removed rule is not there to be skipped
+			r.Skip = rapid.IntRange(1, 2).Draw(t, "skipn")
+		}
 		c.Base = append(c.Base, r)
 	}
 	d := &c.Dir
@@ -147,6 +151,12 @@ func genC17(t *rapid.T) *C17Case {
 		d.CtlPos = rapid.IntRange(0, n).Draw(t, "ctlpos")
 		if rapid.Bool().Draw(t, "ctlcond") {
 			d.CtlCond = rapid.IntRange(1, 2).Draw(t, "ctlcondk")
+		}
+		// the rule carrying the ctl must itself run: no skip window of its phase may open in front of it
+		for i, r := range c.Base {
+			if i < d.CtlPos && r.Phase == d.CtlPhase {
+				r.Skip = 0
+			}
 		}
 		switch d.CtlOpt {
 		case "ruleRemoveById", "ruleRemoveTargetById":
@@ -478,6 +488,12 @@ func checkC17(c *C17Case) Result {
 		res.Labels = append(res.Labels, "ctl:"+c.Dir.CtlOpt)
 		if ctlFires {
 			res.Labels = append(res.Labels, "ctl-executed")
+		}
+	}
+	for _, r := range c.Base {
+		if r.Skip > 0 && (strings.HasPrefix(c.Dir.Kind, "remove") || strings.HasPrefix(c.Dir.CtlOpt, "ruleRemoveBy")) && changed {
+			res.Labels = append(res.Labels, "removal-with-skip-window")
+			break
 		}
 	}
 	if len(c.Dir.IDs) > 1 {
